@@ -392,6 +392,10 @@ class IndexInterp:
         if plain and nm == "product":
             seqs = [self._iterate(a, e) for a in args] * int(kw.get("repeat", 1))
             return list(itertools.product(*seqs))
+        if nm == "ndindex" and args and not isinstance(e.func, ast.Name):
+            shape = args[0] if len(args) == 1 and isinstance(args[0], (tuple, list)) else args
+            if all(isinstance(x, int) for x in shape):
+                return list(itertools.product(*[range(x) for x in shape]))
         if plain and nm == "combinations" and len(args) == 2:
             return list(itertools.combinations(self._iterate(args[0], e), args[1]))
         if plain and nm == "combinations_with_replacement" and len(args) == 2:
